@@ -183,7 +183,7 @@ func runC07(args []string) error {
 	}
 	r := rf.rng()
 	sum := &Summary{Engine: "c07", Seed: rf.Seed,
-		Rule: "restores through the real table.Manager on a single-node dragonboat NodeHost (in-memory FS): source tables of 0-12 pairs with values from empty to 300 KiB (thorough: 2 MiB) captured by the real commandSnapshot into a real snapshot file (snappy + length frames), shipped through snapshot.Writer/Reader with chunk sizes from 1 byte to 1 MiB, with and without the final index message, while a writer modifies the source table mid-capture; MaxInMemLogSize in {0, values placing the batch threshold on every record position, default}; restore over an existing table with other content, every third one after an earlier restore of other content that broke off mid-stream; observed: full range and leader index of the restored table. Plus framing cases (message lists x chunk sizes) through real snapshot files. distinct = distinct (content, setting, chunking); non-trivial = at least 3 pairs and a threshold that cuts inside the stream"}
+		Rule: "restores through the real table.Manager on a single-node dragonboat NodeHost (in-memory FS): source tables of 0-12 pairs with values from empty to 300 KiB (thorough: 2 MiB) captured by the real commandSnapshot into a real snapshot file (snappy + length frames), shipped through snapshot.Writer/Reader with chunk sizes from 1 byte to 1 MiB, with and without the final index message, while a writer modifies the source table mid-capture; MaxInMemLogSize in {0, values placing the batch threshold on every record position, default}; restore over an existing table with other content, every third one after an earlier restore of other content that broke off mid-stream; observed: full range and leader index of the restored table. Plus the operator path (real backup client, Maintenance and Cluster services over loopback gRPC, real storage.Engine): backup / change / restore of tables of 0, 5 and 3 large pairs, and tampered backup directories (swapped and emptied files that still decode) which must be refused without changing a table. Plus framing cases (message lists x chunk sizes) through real snapshot files. distinct = distinct (content, setting, chunking); non-trivial = at least 3 pairs and a threshold that cuts inside the stream"}
 	var nh *dragonboat.NodeHost
 	var members map[uint64]string
 	if !framingOnly {
@@ -451,6 +451,14 @@ func runC07(args []string) error {
 		}
 	}
 
+	// ---- the operator path: backup client <-> Maintenance service <-> engine ----
+	bg := &CasesFile{Requires: []string{"Model.Bytes", "Model.Obs", "Model.BackupGate", "Run.C07Run"}, CaseType: "bgcase", Check: "bg_check", Show: "bg_model"}
+	if !framingOnly {
+		if err := runC07Backup(sum, bg); err != nil {
+			return err
+		}
+	}
+
 	// ---- framing through real snapshot files ----
 	ff := &CasesFile{Requires: []string{"Model.Bytes", "Model.Obs", "Model.Framing", "Run.C07Run"}, CaseType: "frcase", Check: "fr_check", Show: "fr_model"}
 	nfr := 25
@@ -609,6 +617,59 @@ func runC07(args []string) error {
 			}
 		}
 	}
+	// the exporter (fsm.commandSnapshot via writeCommand) marshals every command into ONE buffer it refills right after
+	// Write returns: what is read back must be what the buffer held at the time of each Write
+	for round := 0; round < 3; round++ {
+		sizes := [][]int{{70000, 100, 66000, 65536, 200000, 5}, {65535, 65536, 65537, 131072}, {300000, 300000, 300000, 10, 300000}}[round]
+		sf, err := snapshot.NewTemp()
+		if err != nil {
+			return err
+		}
+		var want [][]byte
+		var shared []byte
+		for i, l := range sizes {
+			m := make([]byte, l)
+			for j := range m {
+				m[j] = byte(i*31 + j%251)
+			}
+			want = append(want, m)
+			shared = append(shared[:0], m...)
+			if _, err := sf.Write(shared); err != nil {
+				return err
+			}
+			for j := range shared { // the next command is marshalled over it
+				shared[j] = 0xEE
+			}
+		}
+		if err := sf.Sync(); err != nil {
+			return err
+		}
+		_, _ = sf.Seek(0, io.SeekStart)
+		var got [][]byte
+		rerr := ""
+		buf := make([]byte, 1<<20)
+		for {
+			n, err := sf.Read(buf)
+			if err != nil {
+				if err != io.EOF {
+					rerr = err.Error()
+				}
+				break
+			}
+			got = append(got, append([]byte(nil), buf[:n]...))
+		}
+		_ = sf.Close()
+		_ = os.Remove(sf.Path())
+		sum.Evaluations++
+		sum.hist("prefix_alignment").Inc("large messages written from one reused buffer")
+		ok := rerr == "" && len(got) == len(want)
+		for i := 0; ok && i < len(want); i++ {
+			ok = bytes.Equal(got[i], want[i])
+		}
+		if !ok {
+			sum.violate(6000+round, "messages read back from a snapshot file differ from the messages written", map[string]any{"message_sizes": fmt.Sprint(sizes), "writer": "one buffer, refilled after every Write"}, fmt.Sprintf("read %d of %d messages; %s", len(got), len(want), rerr))
+		}
+	}
 	var names []string
 	if !framingOnly {
 		names, err = cf.Write(rf.Out, "c07_cases", 8)
@@ -624,5 +685,12 @@ func runC07(args []string) error {
 		return err
 	}
 	sum.CasesFiles = append(names, fnames...)
+	if len(bg.Descr) > 0 {
+		bnames, err := bg.Write(rf.Out, "c07_gate", 50)
+		if err != nil {
+			return err
+		}
+		sum.CasesFiles = append(sum.CasesFiles, bnames...)
+	}
 	return sum.write(rf.Out, "c07")
 }
